@@ -29,6 +29,8 @@ Lists(gs) == {ColItems(gs) \o <<AI("count", "", "c")>>,
               ColItems(gs) \o <<AI("min", "a", "mn"), AI("max", "a", "mx"), AI("max", "b", "mb")>>,
               ColItems(gs) \o <<AI("avg", "a", "av"), AI("count", "a", "ca")>>,
               <<AI("count", "", "c"), AI("sum", "a", "s")>>,
+              \* aggregates over a grouping column itself: constant in its group, SUM and COUNT still cover every member
+              ColItems(gs) \o <<AI("sum", "g", "sg"), AI("count", gs[1], "cg"), AI("avg", "g", "ag")>>,
               <<Star>>,
               <<AI("min", "b", "m"), AI("sum", "b", "s")>> \o ColItems(gs),
               \* several aggregates over one column, AVG first (its own value is open when the column has NULLs)
@@ -37,6 +39,7 @@ WH == {<<None, None>>,
        <<CmpE(">", Col("a"), LN(1)), None>>,
        <<None, CmpE(">", Agg("count", <<>>), LN(1))>>,
        <<CmpE("=", Col("g"), LN(0)), CmpE(">", Agg("sum", <<"a">>), LN(3))>>,
+       <<None, CmpE(">", Agg("sum", <<"g">>), LN(1))>>,
        <<CmpE(">", Col("a"), LN(1)), CmpE("<=", Agg("max", <<"a">>), LN(2))>>}
 
 \* without GROUP BY: select lists made only of aggregates
@@ -55,6 +58,7 @@ QItems(gs) == [i \in 1..Len(gs) |-> Item(QC(gs[i]), "")]
 QAI(f, c, as) == Item(Agg(f, IF c = "" THEN <<>> ELSE <<"r", c>>), as)
 QLists(gs) == {QItems(gs) \o <<QAI("count", "", "c")>>,
                QItems(gs) \o <<QAI("sum", "a", "s"), QAI("max", "b", "mb")>>,
+               QItems(gs) \o <<QAI("sum", "g", "sg"), QAI("count", gs[1], "cg")>>,
                <<QAI("count", "", "c"), QAI("min", "a", "mn")>>}
 QWH == {<<None, None>>, <<IsE("null", QC("z")), None>>,
         <<CmpE(">", QC("a"), LN(1)), CmpE(">", Agg("count", <<>>), LN(1))>>}
